@@ -407,6 +407,12 @@ class RangeFrame(Frame):
                 if lo > hi:
                     raise Infeasible()
                 self.env[ln['d']] = R(lo, hi, alo, ahi, cur.stride if cur.full else None, cur.isint, cur.srcs)
+                info = getattr(self.ip, 'lookup_info', None)
+                if info is not None and len(cur.srcs) >= 2 and cur.full and all(sx in info for sx in cur.srcs):
+                    alph = {info[sx][0] for sx in cur.srcs}
+                    poss = [info[sx][1] for sx in cur.srcs]
+                    if len(alph) == 1 and all(px is not None for px in poss):
+                        self.ip.fields[(next(iter(alph)), min(poss), max(poss))] = (lo, hi, ln.get('name'))
                 return
 
     # ---------------------------------------------------------------- calls
@@ -437,6 +443,13 @@ class RangeFrame(Frame):
                 return UNK
             self.ip.nlookups += 1
             lo = -1
+            pos_ = None
+            cn0 = f.nodes[f.strip_casts(args[1])]
+            if cn0['k'] == 'CXXOperatorCallExpr' and len(cn0.get('args', [])) == 2:
+                pv = self.ev(cn0['args'][1])
+                if _num(pv) and not isunk(pv):
+                    pos_ = int(pv)
+            self.ip.pending_lookup = (aq, pos_)
             if aq in self.ip.allin:
                 # the character is known to belong to the alphabet if its position is past the checked prefix
                 cn = f.nodes[f.strip_casts(args[1])]
@@ -444,7 +457,10 @@ class RangeFrame(Frame):
                     pos = self.ev(cn['args'][1])
                     if _num(pos) and not isunk(pos) and pos >= self.ip.allin[aq]:
                         lo = 0
-            return fresh(lo, size - 1)
+            r_ = fresh(lo, size - 1)
+            if getattr(self.ip, 'lookup_info', None) is not None:
+                self.ip.lookup_info[next(iter(r_.srcs))] = self.ip.pending_lookup
+            return r_
         if nm == 'ldexp' and not ce.get('inrepo') and len(args) == 2:
             a, b = self.ev(args[0]), self.ev(args[1])
             if _num(a) and _num(b) and not isunk(a) and not isunk(b):
@@ -476,6 +492,9 @@ class RangeFrame(Frame):
 
 class Infeasible(Exception):
     pass
+
+
+FIELDS = {}       # decoder q -> {(alphabet q, first position, last position): (lo, hi, variable)} from the last run
 
 
 DOMAIN = {'lat': (-90.0, 90.0), 'lon': (-180.0, 180.0)}
@@ -513,10 +532,17 @@ def rule_X10(ctx, targets, maxlen=26):
             ip.allin = {}
             ip.nlookups = 0
             ip.loop_unknown = False
+            ip.lookup_info = {}
+            ip.fields = {}
+            ip.pending_lookup = None
 
             def end(outcome, ip=ip, per_path=per_path):
                 if outcome == 'ok':
                     per_path.append((dict(ip.outs), ip.loop_unknown))
+                    for kf, vf in ip.fields.items():
+                        cur_ = FIELDS.setdefault(q, {}).get(kf)
+                        # the accepted set of a field is the union over the accepting paths
+                        FIELDS[q][kf] = vf if cur_ is None else (min(cur_[0], vf[0]), max(cur_[1], vf[1]), vf[2])
             ip.on_path_end = end
             orig_call = ip.call
 
@@ -525,6 +551,7 @@ def rule_X10(ctx, targets, maxlen=26):
                     ip.outs = {}
                     ip.allin = {}
                     ip.loop_unknown = False
+                    ip.fields = {}
                 try:
                     return orig_call(fn, a, depth, this_env)
                 except Infeasible:
